@@ -20,6 +20,46 @@ func init() {
 	vregister("H_C03_gids", H_C03_gids)
 	vregister("H_C03_rdt", H_C03_rdt)
 	vregister("H_C03_frame", H_C03_frame)
+	vregister("H_C03_manymounts", H_C03_manymounts)
+}
+
+// more mounts than Go's sort treats with plain insertion sort (12): the depth of every mount is chosen by the solver,
+// the result must be the stable depth order of (initial minus replaced) + edit
+func H_C03_manymounts() {
+	n := vparam("NMOUNTS")
+	o := &oci.Spec{}
+	type mnt struct{ dst, src string }
+	var exp []mnt
+	for i := 0; i < n; i++ {
+		d := "/m" + string(rune('a'+i))
+		deep := false
+		if i < 5 {
+			deep = nondetChoice("deep"+string(rune('a'+i)), 2) == 1 // a few concrete choices spread the work over the workers
+		} else {
+			deep = nondetBool("deep" + string(rune('a'+i)))
+		}
+		if deep {
+			d += "/x"
+		}
+		o.Mounts = append(o.Mounts, oci.Mount{Destination: d, Source: "/s" + string(rune('a'+i))})
+		exp = append(exp, mnt{d, "/s" + string(rune('a'+i))})
+	}
+	e := &cdi.ContainerEdits{Mounts: []*cdi.Mount{{HostPath: "/edit", ContainerPath: "/zz"}}}
+	exp = append(exp, mnt{"/zz", "/edit"})
+	for i := 1; i < len(exp); i++ {
+		for j := i; j > 0 && vDepth(exp[j].dst) < vDepth(exp[j-1].dst); j-- {
+			exp[j], exp[j-1] = exp[j-1], exp[j]
+		}
+	}
+	err := vApply(e, o)
+	vassert("manymounts-apply-ok", err == nil)
+	vreach("manymounts")
+	vassert("manymounts-count", len(o.Mounts) == len(exp))
+	if len(o.Mounts) == len(exp) {
+		for i := range exp {
+			vassert("manymounts-stable-depth-order", o.Mounts[i].Destination == exp[i].dst && o.Mounts[i].Source == exp[i].src)
+		}
+	}
 }
 
 func vApply(e *cdi.ContainerEdits, o *oci.Spec) error { return (&ContainerEdits{e}).Apply(o) }
